@@ -1051,6 +1051,8 @@ func c19Instances(add func(*Instance), thorough bool) {
 		}
 		ad(with(base, "st", 10, "sc", 0), 0)
 		ad(with(base, "st", 10, "sc", 2), 0)
+		ad(with(base, "st", 10, "sc", 0, "w2", 3), 0)
+		ad(with(base, "st", 10, "sc", 2, "w2", 4), 0)
 		ad(with(P("nv", 3, "w", 2), "st", 5), 0) // third SetValue overwrites the first column
 		ad(with(P("nv", 3, "w", 2), "st", 3, "sc", 0), 1)
 		ad(with(P("nv", 2, "w", 3), "st", 0, "w2", 4, "sc", 1), 1)
@@ -1105,7 +1107,8 @@ func c20Instances(add func(*Instance), thorough bool) {
 			}
 			for cop := 1; cop <= 5; cop++ {
 				ad(with(base, "q", 6, "cop", cop, "fs", 0, "nv", 1, "w2", 2), 0)
-				ad(with(base, "q", 6, "cop", cop, "fs", 0, "nv", 1, "w2", 3), 1)
+				ad(with(base, "q", 6, "cop", cop, "fs", 0, "nv", 1, "w2", 3), 0)
+				ad(with(base, "q", 6, "cop", cop, "fs", 0, "nv", 1, "w", 3, "w2", 2), 1)
 				ad(with(base, "q", 6, "cop", cop, "fs", 0, "w2", 2), 1)
 			}
 		}
